@@ -174,6 +174,16 @@ pub fn scenario_decoders_do_not_panic<C: Suite>(rng: &mut TestRng, p: &Params, n
         calm("Randomizer::deserialize", || frost_rerandomized::Randomizer::<C>::deserialize(b).is_ok())?;
         calm("Identifier::derive", || Id::<C>::derive(b).is_ok())?;
     }
+    // oversized variants of the signature encoding (and of every other honest encoding) into the signature decoder
+    for base in &encs {
+        for extra in [1usize, 2, 32, 64, 1000] {
+            let mut v = base.clone();
+            v.extend_from_slice(&rng.bytes(extra));
+            calm("Signature::deserialize (oversized input)", || fc::Signature::<C>::deserialize(&v).is_ok())?;
+            let text = serde_json::to_string(&hex(&v)).unwrap_or_default();
+            calm("serde_json -> Signature (oversized hex)", || serde_json::from_str::<fc::Signature<C>>(&text).is_ok())?;
+        }
+    }
     // JSON decoders on structurally hostile documents
     let docs = [
         "{}", "[]", "null", "0", "\"\"", "{\"header\":{}}", "{\"header\":{\"version\":0,\"ciphersuite\":\"x\"}}",
@@ -405,10 +415,55 @@ pub fn scenario_keygen_steps_do_not_panic<C: Suite>(rng: &mut TestRng, p: &Param
     let mut m = BTreeMap::new();
     m.insert(me, &empty_commitment);
     calm("PublicKeyPackage::from_dkg_commitments (empty commitment)", || PublicKeyPackage::<C>::from_dkg_commitments(&m).is_ok())?;
-    let mut m = BTreeMap::new();
-    m.insert(me, &long_commitment);
-    m.insert(outsider, any_pkg.commitment());
-    calm("PublicKeyPackage::from_dkg_commitments (commitments of different lengths)", || PublicKeyPackage::<C>::from_dkg_commitments(&m).is_ok())?;
+    // commitments of different lengths, in both orders (which one is "first" is decided by the identifier order)
+    let short_commitment = {
+        let mut list = any_pkg.commitment().serialize().unwrap_or_default();
+        list.truncate(1);
+        need(VerifiableSecretSharingCommitment::<C>::deserialize(list), "short commitment")?
+    };
+    let (lo, hi) = if me < outsider { (me, outsider) } else { (outsider, me) };
+    for (what, first, second) in [
+        ("longer one first", &long_commitment, any_pkg.commitment()),
+        ("shorter one first", any_pkg.commitment(), &long_commitment),
+        ("one-coefficient commitment second", any_pkg.commitment(), &short_commitment),
+        ("one-coefficient commitment first", &short_commitment, any_pkg.commitment()),
+        ("empty commitment second", any_pkg.commitment(), &empty_commitment),
+    ] {
+        let mut m = BTreeMap::new();
+        m.insert(lo, first);
+        m.insert(hi, second);
+        calm(&format!("PublicKeyPackage::from_dkg_commitments (commitments of different lengths, {what})"), || {
+            PublicKeyPackage::<C>::from_dkg_commitments(&m).is_ok()
+        })?;
+    }
+    // the same through part3: a peer (ran part1 with a lower / higher threshold) whose round-two share is
+    // consistent with its own commitment, so that the per-sender check passes
+    for t_bad in [p.t.saturating_sub(1).max(1), p.t + 1] {
+        if t_bad < 2 || t_bad == p.t {
+            continue;
+        }
+        for peer in ids.iter().filter(|i| **i != me) {
+            let n_bad = p.n.max(t_bad);
+            if let Ok((bad_secret, bad_pkg)) = dkg::part1::<C, _>(*peer, n_bad, t_bad, &mut *rng) {
+                // its share for `me`, from its coefficients (public serde form of its own state)
+                let share = serde_json::to_value(&bad_secret).ok().and_then(|j| {
+                    let x = scalar_from_bytes::<C>(&me.serialize())?;
+                    let mut acc = zero::<C>();
+                    for c in j.get("coefficients")?.as_array()?.iter().rev() {
+                        acc = acc * x + scalar_from_bytes::<C>(&unhex(c.as_str()?)?)?;
+                    }
+                    frost_core::keys::SigningShare::<C>::deserialize(&scalar_bytes::<C>(&acc)).ok()
+                });
+                if let Some(share) = share {
+                    let mut r1 = a.r1_for(&me);
+                    let mut r2 = a.r2_for(&me);
+                    r1.insert(*peer, bad_pkg);
+                    r2.insert(*peer, dkg::round2::Package::new(share));
+                    calm(&format!("dkg::part3 (one peer with a consistent {t_bad}-coefficient contribution)"), || dkg::part3::<C>(&s2, &r1, &r2).is_ok())?;
+                }
+            }
+        }
+    }
     calm("PublicKeyPackage::from_commitment (no identifiers)", || {
         PublicKeyPackage::<C>::from_commitment(&Default::default(), &empty_commitment).is_ok()
     })?;
